@@ -4,13 +4,18 @@
    Vocabulary (Iter/Spec.v):
      den p            the item sequence the documentation of the pipeline p defines
      pipe_scrub k p   p with every scripted source continuing with the events k instead of its
-                      first fatal error, and with callbacks that never fail
-     pipe_codes p     the codes of the fatal source errors and of the failing callbacks of p
+                      first fatal error, and with callbacks that never return an error (panics
+                      are no faults in this sense: panicking callbacks and EvPanic events stay)
+     pipe_codes p     the codes of the fatal source errors and of the callbacks of p that
+                      return an error
      legal l rs       rs delivers the items of l in order, errors may be interleaved anywhere,
                       the end is reported only when all of l has been delivered
      legal_until C l rs   the same, up to the first error whose code is in C
-     okp true p       parameters in the documented domain, no fatal source error, callbacks never
-                      fail; ANY number of transient source errors
+     okp true p       parameters in the documented domain, no fatal source error and no panicking
+                      source, callbacks never fail (neither by an error nor by a panic); ANY
+                      number of transient source errors
+     no_panics p      no callback of p panics, no scripted source has an EvPanic event
+     script_ok k      the events k contain no fatal error and no panic
      pipe_erase p     the fault-erased twin of p: every transient error removed from the scripts
      ctx_blind p      no part of p looks at the context: every source is an SScriptNC, there is
                       no Flatten (its outer stream is a FromIterator, which does look)
@@ -27,19 +32,33 @@ From Juniper Require Import Common.Base Iter.Syntax Iter.Config Iter.ModelBase I
   Iter.StreamModel Iter.Spec Iter.IterProofs Iter.StreamProofs Iter.StreamFatal Iter.SReducers
   Iter.GapsLazy Iter.GapsLazyS.
 
-(* Fatal half.  For every pipeline in the documented domain, with any faults (fatal and transient
-   source errors, failing callbacks) and any contexts: until the first reported error that is one
+(* Fatal half.  For every pipeline in the documented domain in which nothing panics
+   (no_panics p = true: a panic is neither an item nor an error - [legal_until] has no place for
+   it), with any faults (fatal and transient source errors, callbacks that return errors) and
+   any contexts: until the first reported error that is one
    of the pipeline's fault codes, the results are a legal trace of the pipeline's denotation in
    the world where the failed sources continue with k - FOR EVERY k.  So the items delivered are
    correct for the items the sources delivered before failing (k = []), and the end is never
    reported at a point where a continuation would have produced more (take another k). *)
 Theorem C08_fatal : forall cfg p lives k,
-  dom p -> no_fatal k ->
+  dom p -> no_panics p = true -> script_ok k ->
   legal_until (pipe_codes p) (den (pipe_scrub k p))
               (results (run_stream_cfg cfg p (Steps (map CNext lives)))).
 Proof. exact stream_steps_fatal. Qed.
 
-(* The step-level fact behind it: a Next call on any state either behaves exactly as on the
+(* The hypothesis no_panics cannot be dropped (the statement as it was before callbacks could
+   panic:  forall cfg p lives k, dom p -> no_fatal k -> legal_until ... ):                      *)
+Theorem C08_fatal_without_no_panics_refuted :
+  exists p lives, dom p /\
+    ~ legal_until (pipe_codes p) (den (pipe_scrub [] p))
+                  (results (run_stream p (Steps (map CNext lives)))).
+Proof.
+  exists (inl (ZFilter PrTrue (mkFailing (Some 0%nat) 0 true) (ZSrc 0 (SSlice [1])))), [true].
+  split; [exact I|]. vm_compute. intros H; exact H.
+Qed.
+
+(* The step-level fact behind it: a Next call on ANY state (panicking callbacks and sources
+   included: a panic is the same panic on the scrubbed state) either behaves exactly as on the
    scrubbed state (same result, same source events, scrubbed successor) or returns Err e for a
    fault code e of the state: an error that cannot be retried is reported at once, unchanged,
    by every combinator. *)
@@ -51,24 +70,29 @@ Proof. intros k live f. exact (proj1 (snext_sim k live f)). Qed.
 
 (* reducers return the error, or the value that is right whatever the failed sources would have
    delivered next *)
-Theorem C08_fatal_collect : forall cfg p live k, dom_z p -> no_fatal k ->
+Theorem C08_fatal_collect : forall cfg p live k,
+  dom_z p -> no_panics_z p = true -> script_ok k ->
   (exists e, results (run_stream_cfg cfg (inl p) (Reduce RCollect live)) = [RErr e]) \/
   results (run_stream_cfg cfg (inl p) (Reduce RCollect live)) = [RVal (den_z (pz_scrub k p))].
 Proof. exact stream_collect_fatal. Qed.
 
-Theorem C08_fatal_reduce : forall cfg p live k, dom_z p -> no_fatal k ->
-  (exists e, results (run_stream_cfg cfg (inl p) (Reduce RSum live)) = [RErr e]) \/
-  results (run_stream_cfg cfg (inl p) (Reduce RSum live))
+(* the reduction function may return an error too; it does not panic *)
+Theorem C08_fatal_reduce : forall cfg p live k,
+  dom_z p -> no_panics_z p = true -> script_ok k -> forall fl, cb_panics fl = false ->
+  (exists e, results (run_stream_cfg cfg (inl p) (Reduce (RSum fl) live)) = [RErr e]) \/
+  results (run_stream_cfg cfg (inl p) (Reduce (RSum fl) live))
   = [RVal [fold_left Z.add (den_z (pz_scrub k p)) 0]].
 Proof. exact stream_sum_fatal. Qed.
 
-Theorem C08_fatal_one : forall cfg p live k, dom_z p -> no_fatal k ->
+Theorem C08_fatal_one : forall cfg p live k,
+  dom_z p -> no_panics_z p = true -> script_ok k ->
   (exists e, results (run_stream_cfg cfg (inl p) (Reduce ROne live)) = [RErr e]) \/
   results (run_stream_cfg cfg (inl p) (Reduce ROne live)) = [one_res (den_z (pz_scrub k p))].
 Proof. exact stream_one_fatal. Qed.
 
 (* Last: for every n in the repaired configuration, for n >= 1 in any configuration *)
-Theorem C08_fatal_last : forall cfg p live k, dom_z p -> no_fatal k ->
+Theorem C08_fatal_last : forall cfg p live k,
+  dom_z p -> no_panics_z p = true -> script_ok k ->
   forall n, (cfg_last_guard cfg = true \/ 1 <= n) ->
   (exists e, results (run_stream_cfg cfg (inl p) (Reduce (RLast n) live)) = [RErr e]) \/
   results (run_stream_cfg cfg (inl p) (Reduce (RLast n) live))
@@ -177,7 +201,7 @@ Example C08_ctx_ignoring_example :
   results (run_stream (pipe_erase p) (Steps (map CNext [true; true; true; true])))
   = [RItem (IZ 1); RItem (IZ 3); RItem (IZ 5); REnd].
 Proof.
-  split; [simpl; intuition discriminate|]. split; [reflexivity|].
+  split; [simpl; unfold script_ok; simpl; intuition discriminate|]. split; [reflexivity|].
   split; vm_compute; reflexivity.
 Qed.
 
@@ -200,6 +224,7 @@ Theorem C08_last_n0_refuted :
 Proof. exact stream_last_n0_refuted. Qed.
 
 Print Assumptions C08_fatal.
+Print Assumptions C08_fatal_without_no_panics_refuted.
 Print Assumptions C08_fatal_step.
 Print Assumptions C08_fatal_collect.
 Print Assumptions C08_fatal_reduce.
